@@ -585,7 +585,11 @@ impl Server {
             })
             .unwrap();
 
-        let changes = action_provider.changes(target_node_id, self).unwrap();
+        let changes = match action_provider.changes(target_node_id, self) {
+            Some(changes) => changes,
+            // nothing to do for this node (any more): resolve to the action without an edit
+            None => return code_action.clone(),
+        };
 
         let mut action = code_action.clone();
         action.edit = Some(WorkspaceEdit {
